@@ -137,3 +137,22 @@ Lemma concat_range x y m n : 0 <= m -> 0 <= n -> 0 <= x < 2 ^ m -> 0 <= y < 2 ^ 
 Proof.
   intros. rewrite Z.pow_add_r by lia. pose proof (pow2_pos n ltac:(lia)). nia.
 Qed.
+
+Lemma lt_pow2_self w : 0 <= w -> w < 2 ^ w.
+Proof. intros. apply Z.pow_gt_lin_r; lia. Qed.
+
+
+Lemma shl_disjoint_or w a k : 0 <= k <= w -> 0 <= a < 2 ^ w ->
+  Z.lor (wrap w (a * 2 ^ k)) (a / 2 ^ (w - k)) = wrap w (a * 2 ^ k) + a / 2 ^ (w - k).
+Proof.
+  intros Hk Ha. unfold wrap.
+  replace (2 ^ w) with (2 ^ (w - k) * 2 ^ k) by (rewrite <- Z.pow_add_r by lia; f_equal; lia).
+  pose proof (pow2_pos k ltac:(lia)). pose proof (pow2_pos (w - k) ltac:(lia)).
+  rewrite Z.mul_mod_distr_r by lia.
+  rewrite <- (Z.shiftl_mul_pow2 _ k) by lia.
+  rewrite lor_shiftl_add; [rewrite Z.shiftl_mul_pow2 by lia; reflexivity|lia|].
+  split; [apply Z.div_pos; lia|].
+  apply Z.div_lt_upper_bound; [lia|].
+  replace (2 ^ (w - k) * 2 ^ k) with (2 ^ w) by (rewrite <- Z.pow_add_r by lia; f_equal; lia). lia.
+Qed.
+
